@@ -172,7 +172,8 @@ func (st *State) execSimple(fr *Frame, in ssa.Instruction) bool {
 	case *ssa.Select:
 		st.execSelect(fr, x)
 	case *ssa.Send:
-		// channel sends are not modelled beyond their occurrence
+		// a send is recorded in the ghost history chan_sent (scalar elements only); blocking is not modelled
+		st.chanRecord("chan_sent", st.scalar(st.val(fr, x.Chan)), st.val(fr, x.X), TTrue)
 		st.events = append(st.events, "send")
 	default:
 		st.unsupported("instruction %T not supported", in)
@@ -247,12 +248,15 @@ func (st *State) execUnOp(fr *Frame, x *ssa.UnOp) bool {
 	case token.ARROW:
 		// receive: value unknown; closed channels yield zero values
 		ch := st.scalar(v)
-		_ = ch
 		et := x.X.Type().Underlying().(*types.Chan).Elem()
+		rv := st.freshVal("recv", et)
 		if x.CommaOk {
-			fr.vals[x] = &TupleV{[]SVal{st.freshVal("recv", et), st.fresh("recvok", SBool)}}
+			okv := st.fresh("recvok", SBool)
+			fr.vals[x] = &TupleV{[]SVal{rv, okv}}
+			st.chanRecord("chan_recvd", ch, rv, okv)
 		} else {
-			fr.vals[x] = st.freshVal("recv", et)
+			fr.vals[x] = rv
+			st.chanRecord("chan_recvd", ch, rv, TTrue)
 		}
 		st.events = append(st.events, "recv")
 	case token.XOR:
@@ -871,13 +875,33 @@ func (st *State) execSelect(fr *Frame, x *ssa.Select) {
 	}
 	st.assume(And(Ge(idx, lo), Lt(idx, IntLit(int64(n)))))
 	vs := []SVal{idx, st.fresh("select.ok", SBool)}
-	for _, s := range x.States {
+	for i, s := range x.States {
+		chosen := Eq(idx, IntLit(int64(i)))
 		if s.Dir == types.RecvOnly {
-			vs = append(vs, st.freshVal("select.recv", s.Chan.Type().Underlying().(*types.Chan).Elem()))
+			rv := st.freshVal("select.recv", s.Chan.Type().Underlying().(*types.Chan).Elem())
+			vs = append(vs, rv)
+			cht := st.scalar(st.val(fr, s.Chan))
+			st.chanRecord("chan_recvd", cht, rv, chosen)
+			if strings.HasPrefix(cht.S, "(ctx_done_chan ") {
+				cur := st.ghostGet(st.heap, "ctx_done_seen", []*Term{cht}, SBool)
+				st.ghostSet("ctx_done_seen", []*Term{cht}, Or(cur, chosen))
+			}
+		} else if s.Send != nil {
+			st.chanRecord("chan_sent", st.scalar(st.val(fr, s.Chan)), st.val(fr, s.Send), chosen)
 		}
 	}
 	fr.vals[x] = &TupleV{vs}
 	st.events = append(st.events, "select")
+}
+
+// chanRecord adds (ch, v) to the ghost relation name when cond holds (values of sort Int only).
+func (st *State) chanRecord(name string, ch *Term, v SVal, cond *Term) {
+	t, ok := v.(*Term)
+	if !ok || t.Sort != SInt || isFalse(cond) {
+		return
+	}
+	cur := st.ghostGet(st.heap, name, []*Term{ch, t}, SBool)
+	st.ghostSet(name, []*Term{ch, t}, Or(cur, cond))
 }
 
 // ghost arrays ----------------------------------------------------------------
